@@ -63,7 +63,7 @@ func init() {
 	register("C01", &driver{replay: replayC01, record: recordC01})
 }
 
-const c01Patience = 10 * time.Second
+const c01Patience = 30 * time.Second
 
 var c01Variants = []string{"whole", "onebyte", "short", "dataerr"}
 
@@ -521,6 +521,8 @@ func c01CheckWhole(env *Env, c *c01Case) {
 
 // c01CheckReaders: the goroutines of the library itself (a panic there ends the process: run after the
 // chunk-level checks, and only if they found nothing).
+var c01RetryMu sync.Mutex
+
 func c01CheckReaders(env *Env, c *c01Case, heavy bool) {
 	data := []byte(c.Text)
 	cl := c.Fmt + "/whole"
@@ -531,32 +533,42 @@ func c01CheckReaders(env *Env, c *c01Case, heavy bool) {
 		if (c.Fmt == "genbank" || c.Fmt == "embl") && !heavy {
 			break
 		}
-		var it obiiter.IBioSequence
-		var err error
-		opts := []obiformats.WithOption{obiformats.OptionsParallelWorkers(w), obiformats.OptionFastSeqDoNotParseHeader(), obiformats.OptionsSource("verif")}
-		st := guarded(func() {
-			switch c.Fmt {
-			case "fasta":
-				it, err = obiformats.ReadFasta(bytes.NewReader(data), opts...)
-			case "fastq":
-				it, err = obiformats.ReadFastq(bytes.NewReader(data), opts...)
-			case "genbank":
-				c01FlatMu.Lock()
+		// A time-out is only believed when it repeats alone, with a long patience: the flat-file readers allocate a
+		// 128 MiB buffer per call and many cases run at once, so a loaded machine can be slow without hanging.
+		readWhole := func(patience time.Duration) (orders []int, recs []c01Rec, st string, err error) {
+			var it obiiter.IBioSequence
+			opts := []obiformats.WithOption{obiformats.OptionsParallelWorkers(w), obiformats.OptionFastSeqDoNotParseHeader(), obiformats.OptionsSource("verif")}
+			if c.Fmt == "genbank" || c.Fmt == "embl" {
+				c01FlatMu.Lock() // taken OUTSIDE the timed section
 				defer c01FlatMu.Unlock()
-				it, err = obiformats.ReadGenbank(bytes.NewReader(data), opts...)
-			case "embl":
-				c01FlatMu.Lock()
-				defer c01FlatMu.Unlock()
-				it, err = obiformats.ReadEMBL(bytes.NewReader(data), opts...)
 			}
-		})
+			st = guardedFor(patience, func() {
+				switch c.Fmt {
+				case "fasta":
+					it, err = obiformats.ReadFasta(bytes.NewReader(data), opts...)
+				case "fastq":
+					it, err = obiformats.ReadFastq(bytes.NewReader(data), opts...)
+				case "genbank":
+					it, err = obiformats.ReadGenbank(bytes.NewReader(data), opts...)
+				case "embl":
+					it, err = obiformats.ReadEMBL(bytes.NewReader(data), opts...)
+				}
+			})
+			if st != "" || err != nil {
+				return
+			}
+			orders, recs, st = c01DrainFor(patience, it)
+			return
+		}
+		orders, recs, st, err := readWhole(c01Patience)
+		if st == "timeout" {
+			c01RetryMu.Lock()
+			orders, recs, st, err = readWhole(90 * time.Second)
+			c01RetryMu.Unlock()
+			c01Count(env, "timeout-retried")
+		}
 		if st != "" || err != nil {
 			c01Fail(env, "C01.reader.fatal", cl, fmt.Sprintf("reader with %d workers: %s %v %v", w, st, err, fatalMessages()), rc)
-			continue
-		}
-		orders, recs, st := c01Drain(it)
-		if st != "" {
-			c01Fail(env, "C01.reader.fatal", cl, fmt.Sprintf("reader with %d workers: %s %v", w, st, fatalMessages()), rc)
 			continue
 		}
 		if !c01OrdersOK(orders) {
